@@ -39,6 +39,11 @@ LONG = {"a": "--anonymize-ips", "p": "--anonymize-passwords", "u": "--undo", "pv
         "i": "--input", "o": "--output", "s": "--salt", "d": "--dump-ip-map", "w": "--sensitive-words",
         "n": "--as-numbers", "r": "--reserved-words", "pp": "--preserve-prefixes", "pa": "--preserve-addresses",
         "hb": "--preserve-host-bits"}
+# unambiguous prefixes of the long options (argparse accepts them unless allow_abbrev is off;
+# R lets an implementation refuse them, but an accepted one is the same option)
+ABBR = {"a": "--anonymize-i", "p": "--anonymize-pass", "u": "--un", "pv": "--preserve-priv", "i": "--inp", "o": "--out",
+        "s": "--sal", "d": "--dump", "w": "--sens", "n": "--as-num", "r": "--reserved", "pp": "--preserve-pref",
+        "pa": "--preserve-addr", "hb": "--preserve-host"}
 SHORT = {"a": "-a", "p": "-p", "u": "-u", "i": "-i", "o": "-o", "s": "-s", "d": "-d", "w": "-w", "n": "-n", "r": "-r"}
 NONE = "-"
 
@@ -50,8 +55,8 @@ PA1 = ["11.11.0.0/16", "111.111.111.111"]
 TXT = {
     "in1": "in1", "in2": "in2", "out1": "out1", "out2": "out2", "EMPTY": "",
     "s1": "saltC19b", "s2": "otherSalt9", "map1": "map1.txt", "map2": "map2.txt",
-    "w1": "intentionet,sensitive", "w2": "Zebra,secretword",
-    "n1": "65432,12345", "n2": "701", "r1": "reservedword", "r2": "resTwo",
+    "w1": "intentionet,sensitive", "w2": "Zebra,secret phrase",
+    "n1": "65432,12345", "n2": "701", "r1": "reservedword", "r2": "resTwo", "r3": "PublicRO,Corp-RO,ZebraKeep",
     "pp1": "192.168.2.0/24", "pp2": "12.0.0.0/8,192.0.0.0/3", "ppdef": ",".join(CLASSES + RFC),
     "pa1": ",".join(PA1), "parfc": ",".join(RFC), "pamix": ",".join(PA1 + RFC),
     "m1": "-1", "h0": "0", "h8": "8", "h17": "17", "h32": "32", "h33": "33",
@@ -59,14 +64,21 @@ TXT = {
 ITEM_ORDER = CLASSES + RFC + PA1 + ["192.168.2.0/24", "12.0.0.0/8"]
 
 IN1_A = """!
-! Intentionet's sensitive test file (secretword inside)
+! Intentionet's sensitive test file (secret phrase inside)
 hostname intentionet-sea-rtr1
 username admin password 7 122A001901
 enable secret 5 $1$wtHI$0rN7R8PKwC30AsCGA77vy.
 password foobar
 password reservedword
 password resTwo
+password RESTWO
+password Reservedword
+snmp-server community PublicRO RO
+snmp-server community publicro RO
 snmp-server community s3cr3tcomm RO
+username admin password Corp-RO
+username oper password corp-ro
+description ZebraKeep zebra uplink zebrakeep
 tacacs-server host 1.2.3.4 key pwd1234
 pre-shared-key ascii-text "$9$eZkvX7dbs4JG"; ## SECRET-DATA
 ip address 192.168.2.1 255.255.255.0
@@ -110,7 +122,7 @@ router bgp 65432
 # Sensitive word zebra here, sensitive again ZEBRA
 AS num 12345 and 65432 and 701 should be changed
 """
-IN1_B = """set system host-name secretword-lax
+IN1_B = """set system host-name secret phrase-lax
 set interfaces ge-0/0/0 unit 0 family inet address 10.20.30.40/24
 set interfaces ge-0/0/1 unit 0 family inet address 172.20.1.200/24
 set interfaces ge-0/0/2 unit 0 family inet address 192.168.2.77/24
@@ -139,7 +151,8 @@ ipv6 address 2001:db8:ffff::9
 ipv6 address 2400:cb00::1234
 password hunter2222
 password resTwo
-secretword Zebra intentionet
+snmp-server community PublicRO RO
+a secret phrase Zebra intentionet
 router bgp 701
  neighbor 9.9.9.9 remote-as 65432
 """
@@ -151,26 +164,38 @@ KEEP = {"in1", "in2", "c.cfg"}
 # concretization
 # ---------------------------------------------------------------------------
 def vkey(v):
-    return json.dumps({"cli": v["cli"], "cfg": v["cfg"]}, sort_keys=True, separators=(",", ":"))
+    return json.dumps({"cli": v["cli"], "cfg": v["cfg"], "sp": v["sp"]}, sort_keys=True, separators=(",", ":"))
 
 
 def concretize(v):
     """option vector -> (argv, config text or None, description of the spelling choices)"""
     r = rng("C19", "spell", vkey(v))
-    style = r.choice(["long-eq", "long-space", "short"])
+    style = r.choice(["eq", "long", "short"])      # what "any" stands for in this vector
     groups = []
     items = [o for o in OPTS if v["cli"][o] != NONE]
     r.shuffle(items)
     for o in items:
-        name = SHORT.get(o, LONG[o]) if style == "short" else LONG[o]
+        sp = v["sp"][o]
+        if sp == "any":
+            sp = style
+            if o in FLAGS and sp == "eq":
+                sp = "long"
+            if sp == "short" and o not in SHORT:
+                sp = "long"
+        name = {"long": LONG[o], "eq": LONG[o], "short": SHORT.get(o), "glued": SHORT.get(o),
+                "abbr": ABBR[o], "abbreq": ABBR[o]}[sp]
+        if name is None:
+            raise MachineryError("option %s has no short form (spelling %s)" % (o, sp))
         if o in FLAGS:
             groups.append([name])
             continue
         val = TXT[v["cli"][o]]
-        if name.startswith("--") and (style == "long-eq" or val.startswith("-")):
+        if sp in ("eq", "abbreq") or (val.startswith("-") and name.startswith("--")):
             groups.append(["%s=%s" % (name, val)])
-        elif val.startswith("-"):
-            groups.append([name + val])      # short option with a value that looks like an option: glued
+        elif sp == "glued" or val.startswith("-"):
+            if val == "":
+                raise MachineryError("the empty string cannot be glued to %s" % name)
+            groups.append([name + val])
         else:
             groups.append([name, val])
     centries = [o for o in OPTS if v["cfg"][o] != NONE]
@@ -544,6 +569,9 @@ def key_for(clause, g):
     """stable key from the input class: clause, decision-relevant class of the vector, kinds of placement used"""
     eff = {o: (g["cli"][o] if g["cli"][o] != NONE else g["cfg"][o]) for o in OPTS}
     places = ",".join(sorted({placement(g, o) for o in OPTS if placement(g, o)})) or "none"
+    odd = sorted({"%s:%s/%s" % (o, g["sp"][o], placement(g, o)) for o in OPTS if g["sp"][o] not in (NONE, "any")})
+    if odd:
+        places += " spellings=" + ",".join(odd)
     if g["decision"] == "Reject":
         return "clause=%s reasons=%s placements=%s" % (clause, "+".join(g["reasons"]), places)
     feats = [o for o in ("a", "p", "u", "w", "n") if eff[o] not in (NONE, "false")]
@@ -594,9 +622,11 @@ def _probe_variants(probes, tag, kw):
     var("salt", salt="yetAnotherSalt")
     var("salt-empty-string", salt="")
     var("pwd-off", anon_pwd=False)
-    var("words", sensitive_words=["Zebra", "secretword"])
+    var("words", sensitive_words=["Zebra", "secret phrase"])
     var("asn", as_numbers=["701"])
     var("reserved", reserved_words=["resTwo"])
+    var("reserved-mixed-case-list", reserved_words=["PublicRO", "Corp-RO", "ZebraKeep"])
+    var("reserved-lower-cased", reserved_words=["publicro", "corp-ro", "zebrakeep"])
     var("hb4", preserve_suffix_v4=0)
     var("hb6", preserve_suffix_v6=0)
     var("hb-both-17", preserve_suffix_v4=17, preserve_suffix_v6=17)
@@ -620,6 +650,8 @@ def run(pid, tier):
         "the option names and config-file keys are the documented ones (README usage); values are simple tokens "
         "(letters, digits, . , / : _ -), lists are comma separated in both places",
         "a config-file flag is written flag=true / flag (on) or flag=false (off)",
+        "attached short forms (-nV) are legal spellings; unambiguous abbreviations of long options are legal unless the "
+        "implementation refuses abbreviations altogether (then: rejected, nothing written - accepted as don't-care)",
         "anonymize_files keyword parameters keep their meaning (they are the spec's parameter mapping); if the "
         "call is refused (TypeError) the reference falls back to the first accepted run of each class (recorded as drift)",
         "each case runs in a forked child of a process that has only imported netconan (no state shared between cases)",
@@ -754,6 +786,10 @@ def _run(ck, pid, tier, thorough, pool):
                 obs["probe-failed-" + tag] = "%s %s" % (b["etype"], b["msg"])
             continue
         obs[name] = obs.get(name, False) or (b["outcome"] == "return" and pd[n]["outcome"] == "return" and pd[n]["digest"] != b["digest"])
+    for tag in ("s1", "s2"):
+        x, y = pd.get(tag + ":reserved-mixed-case-list"), pd.get(tag + ":reserved-lower-cased")
+        if x and y:
+            obs["reserved-word-case"] = obs.get("reserved-word-case", False) or x["digest"] != y["digest"]
     ck.notes["parameters_observable_in_bytes"] = obs
 
     # library reference usable?  repeatable?
@@ -783,7 +819,7 @@ def _run(ck, pid, tier, thorough, pool):
 
     # ---- 4. traces ------------------------------------------------------------
     def run_event(g, rr, via):
-        return {"ev": "run", "cli": g["cli"], "cfg": g["cfg"], "outcome": rr["outcome"], "etype": rr["etype"],
+        return {"ev": "run", "cli": g["cli"], "cfg": g["cfg"], "sp": g["sp"], "outcome": rr["outcome"], "etype": rr["etype"],
                 "created": rr["created"], "intact": rr["intact"], "digest": rr["digest"], "via": via}
 
     proc_of = {}
@@ -892,7 +928,7 @@ def _run(ck, pid, tier, thorough, pool):
                  rr["files"][:6], rr["intact"]))
         if clause == "OutputDiffersWithinClass":
             what += "; bytes differ from the class reference anonymize_files(%s)" % json.dumps(lib_kwargs(g["params"]), sort_keys=True)
-        ck.violation(key_for(clause, g), what, {"vector": {"cli": g["cli"], "cfg": g["cfg"]}, "argv": argv, "config_file": case["cfg"],
+        ck.violation(key_for(clause, g), what, {"vector": {"cli": g["cli"], "cfg": g["cfg"], "sp": g["sp"]}, "argv": argv, "config_file": case["cfg"],
                                                 "decision": g["decision"], "reasons": g["reasons"], "params": g["params"],
                                                 "observed": rr, "clause": clause, "via": via})
 
@@ -915,7 +951,7 @@ def _run(ck, pid, tier, thorough, pool):
         if (rr["outcome"], set(rr["created"])) != (m_out, set(g["m_created"])):
             ndrift += 1
             if len(ck.drift) < 10:
-                ck.drift.append({"what": "M (CliM) predicts another observation", "vector": {"cli": g["cli"], "cfg": g["cfg"]},
+                ck.drift.append({"what": "M (CliM) predicts another observation", "vector": {"cli": g["cli"], "cfg": g["cfg"], "sp": g["sp"]},
                                  "model": [m_out, g["m_created"]], "code": [rr["outcome"], rr["etype"], rr["created"]]})
     # how the code words each rejection (single-reason vectors; evidence that the
     # concretization reaches the intended branch, never used for a verdict)
@@ -944,7 +980,9 @@ def _run(ck, pid, tier, thorough, pool):
                    "argv": c["argv"], "config_file": c["cfg"], "decision": G[i]["decision"], "reasons": G[i]["reasons"],
                    "observed": {k: R_main[i][k] for k in ("outcome", "etype", "created", "digest")}})
     ck.rule = ("cases = option vectors enumerated by TLC (CliGen: every option x every <<cli,cfg>> placement x every value "
-               "around 5 base vectors; all pairs of options; the validation table of a,u,p,s,d,hb,w,n,i,o; random walks), each "
+               "around 5 base vectors; all pairs of options; the validation table of a,u,p,s,d,hb,w,n,i,o; every option in every "
+               "spelling (long, long=, short, glued short, abbreviation, abbreviation=) over every config-file value of the same option; "
+               "every feature subset x one further option value; random walks over placements and spellings), each "
                "concretized to argv + config file (spelling chosen by seeded rng) and run through the real main() in a fresh "
                "process; distinct_nontrivial = distinct vectors; every vector has a TLC-computed decision and every valid vector "
                "with a salt is compared byte-for-byte with anonymize_files(**Params) and with all vectors of equal Params")
@@ -972,6 +1010,7 @@ def replay(pid, path):
     obj = json.load(open(path))
     case = obj["case"]
     g = {"cli": case["vector"]["cli"], "cfg": case["vector"]["cfg"]}
+    g["sp"] = case["vector"].get("sp") or {o: ("any" if g["cli"][o] != NONE else NONE) for o in OPTS}
     c = {"kind": "main", "argv": case["argv"], "cfg": case["config_file"], "out": None, "dump": None}
     eff = {o: (g["cli"][o] if g["cli"][o] != NONE else g["cfg"][o]) for o in OPTS}
     c["out"] = TXT[eff["o"]] if eff["o"] not in (NONE, "EMPTY") else None
@@ -988,7 +1027,7 @@ def replay(pid, path):
     evs = [{"ev": "start", "compare": True}]
     if len(res) > 1 and res[1]["outcome"] == "return":
         evs.append({"ev": "ref", "params": case["params"], "digest": res[1]["digest"]})
-    evs.append({"ev": "run", "cli": g["cli"], "cfg": g["cfg"], "outcome": res[0]["outcome"], "etype": res[0]["etype"],
+    evs.append({"ev": "run", "cli": g["cli"], "cfg": g["cfg"], "sp": g["sp"], "outcome": res[0]["outcome"], "etype": res[0]["etype"],
                 "created": res[0]["created"], "intact": res[0]["intact"], "digest": res[0]["digest"], "via": "fork"})
     rejected, _ = validate_traces("CliTrace", "CliTrace.cfg", [evs])
     print("replay %s: argv=%r observed=%s" % (path, case["argv"], {k: res[0][k] for k in ("outcome", "etype", "msg", "files")}))
